@@ -3,6 +3,9 @@ From Verif Require Import ColumnStore.
 Import ListNotations.
 Open Scope N_scope.
 
+Lemma usize_max_val : usize_max + 1 = 18446744073709551616.
+Proof. reflexivity. Qed.
+
 (* ---------- lists ---------- *)
 
 Lemma upd_length {A} (l : list A) n x : length (upd l n x) = length l.
@@ -116,9 +119,9 @@ Section CD.
 
   Definition DInv (d : cdata T) : Prop :=
     match d with
-    | Sparse m => NoDup (map fst m) /\ Forall (fun k => k < usize_max) (map fst m)
+    | Sparse m => NoDup (map fst m) /\ Forall (fun k => k <= usize_max) (map fst m)
     | Dense base vals pres count =>
-        length pres = length vals /\ count = count_true pres /\ base + nlen vals <= usize_max
+        length pres = length vals /\ count = count_true pres /\ base + nlen vals <= usize_max + 1
     end.
 
   Lemma cget_dense base vals pres c j :
@@ -267,7 +270,7 @@ Section CD.
     induction m as [|[k v] r IH]; intros acc; cbn; [split; [lia|tauto]|].
     destruct (IH (N.max k acc)) as [H1 H2]. split; [lia|]. intros x [<-|Hx]; [lia | auto].
   Qed.
-  Lemma max_key_bound (m : list (N * T)) b : forall acc, acc < b -> Forall (fun k => k < b) (map fst m) -> max_key m acc < b.
+  Lemma max_key_bound (m : list (N * T)) b : forall acc, acc <= b -> Forall (fun k => k <= b) (map fst m) -> max_key m acc <= b.
   Proof.
     induction m as [|[k v] r IH]; intros acc Ha Hf; cbn; [exact Ha|].
     inversion Hf; subst. apply IH; [cbn in *; lia | assumption].
@@ -318,22 +321,36 @@ Section CD.
         rewrite bitn_upd_neq in H by lia. exact H.
   Qed.
 
-  Lemma promote_spec (m : list (N * T)) :
-    NoDup (map fst m) -> Forall (fun k => k < usize_max) (map fst m) ->
-    exists d', maybe_promote dflt elem m = Some d' /\ DInv d' /\ forall j, cget d' j = aget m j.
+  Lemma dense_is_smaller_max entries : dense_is_smaller usize_max entries elem = false.
   Proof.
-    intros Hnd Hb. unfold maybe_promote.
+    unfold dense_is_smaller. destruct ((usize_max =? 0) || (entries =? 0)); [reflexivity|].
+    unfold sat_mul.
+    assert (H1 : N.min (usize_max * (N.min (elem * 8) usize_max + 1)) usize_max = usize_max) by (apply N.min_r; nia).
+    rewrite H1. apply N.ltb_ge.
+    pose proof (N.le_min_r (entries * ((8 + elem + 1) * 8 * 8)) usize_max) as H2.
+    apply N.le_trans with (m := usize_max / 7); [apply N.div_le_mono; [discriminate | exact H2] | vm_compute; discriminate].
+  Qed.
+
+  Lemma promote_spec (m : list (N * T)) :
+    NoDup (map fst m) -> Forall (fun k => k <= usize_max) (map fst m) ->
+    exists d', maybe_promote dflt elem m = d' /\ DInv d' /\ forall j, cget d' j = aget m j.
+  Proof.
+    intros Hnd Hb. pose proof usize_max_val as HU. unfold maybe_promote.
     destruct ((nlen m <? promote_min_entries) || negb (is_pow2 (nlen m))); [exists (Sparse m); cbn; auto|].
     destruct m as [|[k0 v0] r] eqn:Em; [exists (Sparse []); cbn; auto|]. rewrite <- Em in *.
     set (mn := min_key m k0). set (mx := max_key m k0).
     assert (Hk0 : In k0 (map fst m)) by (rewrite Em; left; reflexivity).
     destruct (min_key_le m k0) as [_ Hmin]. destruct (max_key_ge m k0) as [_ Hmax].
     fold mn in Hmin. fold mx in Hmax.
-    assert (Hmx : mx < usize_max).
+    assert (Hmx : mx <= usize_max).
     { apply max_key_bound; [|exact Hb]. rewrite Forall_forall in Hb. apply Hb, Hk0. }
     assert (Hmm : mn <= mx) by (pose proof (Hmin k0 Hk0); pose proof (Hmax k0 Hk0); lia).
-    destruct (usize_max <=? mx - mn) eqn:Eo; [lia|].
-    destruct (negb (dense_is_smaller (mx - mn + 1) (nlen m) elem)); [exists (Sparse m); cbn; auto|].
+    cbv zeta. unfold sat_add.
+    destruct (negb (dense_is_smaller (N.min (mx - mn + 1) usize_max) (nlen m) elem)) eqn:Ed; [exists (Sparse m); cbn; auto|].
+    assert (Hsp0 : mx - mn + 1 <= usize_max).
+    { destruct (N.le_gt_cases (mx - mn + 1) usize_max) as [H|H]; [exact H|].
+      rewrite N.min_r in Ed by lia. rewrite dense_is_smaller_max in Ed. discriminate. }
+    rewrite N.min_l by exact Hsp0.
     eexists. split; [reflexivity|].
     set (sp := N.to_nat (mx - mn + 1)).
     assert (Hrange : forall k, In k (map fst m) -> mn <= k /\ (N.to_nat (k - mn) < sp)%nat).
@@ -356,19 +373,19 @@ Section CD.
   Proof. intros H. unfold resize. rewrite firstn_all2 by exact H. reflexivity. Qed.
 
   Lemma sparse_inv_ains (m : list (N * T)) idx v :
-    NoDup (map fst m) -> Forall (fun k => k < usize_max) (map fst m) -> idx < usize_max ->
-    NoDup (map fst (ains m idx v)) /\ Forall (fun k => k < usize_max) (map fst (ains m idx v)).
+    NoDup (map fst m) -> Forall (fun k => k <= usize_max) (map fst m) -> idx <= usize_max ->
+    NoDup (map fst (ains m idx v)) /\ Forall (fun k => k <= usize_max) (map fst (ains m idx v)).
   Proof.
     intros H1 H2 H3. split; [apply nodup_ains, H1|]. rewrite Forall_forall in *.
     intros x Hx. apply keys_ains in Hx. destruct Hx as [->|Hx]; auto.
   Qed.
 
   Lemma cset_spec (d : cdata T) idx v :
-    DInv d -> idx < usize_max ->
-    exists d', cset dflt elem d idx v = Some d' /\ DInv d' /\
+    DInv d -> idx <= usize_max ->
+    exists d', cset dflt elem d idx v = d' /\ DInv d' /\
                forall j, cget d' j = if j =? idx then Some v else cget d j.
   Proof.
-    intros HI Hidx. destruct d as [m|base vals pres count]; cbn [cset].
+    intros HI Hidx. pose proof usize_max_val as HU. destruct d as [m|base vals pres count]; cbn [cset].
     - destruct HI as [H1 H2]. destruct (sparse_inv_ains m idx v H1 H2 Hidx) as [A1 A2].
       destruct (promote_spec (ains m idx v) A1 A2) as [d' [E [I G]]].
       exists d'. split; [exact E|]. split; [exact I|]. intros j. rewrite G, aget_ains. reflexivity.
@@ -383,15 +400,19 @@ Section CD.
           -- destruct (j =? idx) eqn:E; [lia|reflexivity].
           -- rewrite arr_get_upd_set by lia. fold n.
              destruct (Nat.eqb (N.to_nat (j - base)) n) eqn:E1, (j =? idx) eqn:E2; try reflexivity; unfold n in *; lia.
-      + assert (Hfb : exists d', Some (Sparse (ains (dense_entries base vals pres) idx v)) = Some d' /\ DInv d' /\
+      + assert (Hfb : exists d', Sparse (ains (dense_entries base vals pres) idx v) = d' /\ DInv d' /\
                         forall j, cget d' j = if j =? idx then Some v else cget (Dense base vals pres count) j).
         { eexists. split; [reflexivity|]. split.
           - apply sparse_inv_ains; [apply dense_entries_nodup | | exact Hidx].
             apply Forall_forall. intros k Hk. apply dense_entries_keys in Hk. unfold nlen in Hk. lia.
           - intros j. rewrite ?cget_dense; cbn [cget]. rewrite aget_ains, dense_entries_get. reflexivity. }
         destruct (base <=? idx) eqn:Eb.
-        * destruct (usize_max <=? idx - base) eqn:Eo; [lia|].
-          destruct (dense_is_smaller (idx - base + 1) (count + 1) elem); [|exact Hfb].
+        * cbv zeta. unfold sat_add.
+          destruct (dense_is_smaller (N.min (idx - base + 1) usize_max) (count + 1) elem) eqn:Ed; [|exact Hfb].
+          assert (Hsp0 : idx - base + 1 <= usize_max).
+          { destruct (N.le_gt_cases (idx - base + 1) usize_max) as [H|H]; [exact H|].
+            rewrite N.min_r in Ed by lia. rewrite dense_is_smaller_max in Ed. discriminate. }
+          rewrite N.min_l by exact Hsp0.
           set (n := N.to_nat (idx - base)). set (sp := N.to_nat (idx - base + 1)).
           assert (Hlen : (length vals <= n)%nat) by (unfold n; lia).
           assert (Hsp : sp = S n) by (unfold sp, n; lia).
@@ -412,8 +433,8 @@ Section CD.
              ++ rewrite arr_get_upd_set by (rewrite app_length, repeat_length; lia).
                 rewrite arr_get_grow by exact HL.
                 destruct (Nat.eqb (N.to_nat (j - base)) n) eqn:E1, (j =? idx) eqn:E2; try reflexivity; unfold n in *; lia.
-        * destruct (usize_max <? base + N.of_nat (length vals)) eqn:Eo; [lia|].
-          destruct (dense_is_smaller (base + N.of_nat (length vals) - idx) (count + 1) elem); [|exact Hfb].
+        * cbv zeta. unfold sat_add.
+          destruct (dense_is_smaller (N.min (base - idx + N.of_nat (length vals)) usize_max) (count + 1) elem) eqn:Ed; [|exact Hfb].
           set (s := N.to_nat (base - idx)). assert (Hs : (0 < s)%nat) by (unfold s; lia).
           destruct (shifted_length vals pres) as [S1 S2].
           eexists. split; [reflexivity|]. split.
@@ -443,7 +464,7 @@ Section CD.
     exists d', cremove dflt d idx = Some d' /\ DInv d' /\
                forall j, cget d' j = if j =? idx then None else cget d j.
   Proof.
-    intros HI. destruct d as [m|base vals pres count]; [cbn [cremove] | rewrite cremove_dense].
+    intros HI. pose proof usize_max_val as HU. destruct d as [m|base vals pres count]; [cbn [cremove] | rewrite cremove_dense].
     - destruct HI as [H1 H2]. eexists. split; [reflexivity|]. split.
       + cbn. split; [apply nodup_aremove, H1|]. rewrite Forall_forall in *. intros x Hx.
         apply keys_aremove in Hx. apply H2. tauto.
@@ -487,8 +508,8 @@ Qed.
 Lemma typed_set_lift {T} (wrapc : cdata T -> column) (f : T -> pv) dflt elem (d : cdata T) idx (z : T) :
   (forall d', CInv (wrapc d') = DInv d') ->
   (forall d' j, column_lookup (wrapc d') j = option_map f (cget d' j)) ->
-  DInv d -> idx < usize_max ->
-  exists c', option_map wrapc (cset dflt elem d idx z) = Some c' /\ CInv c' /\
+  DInv d -> idx <= usize_max ->
+  exists c', Some (wrapc (cset dflt elem d idx z)) = Some c' /\ CInv c' /\
              forall j, column_lookup c' j = if j =? idx then Some (f z) else column_lookup (wrapc d) j.
 Proof.
   intros HI HG Hd Hidx. destruct (cset_spec dflt elem d idx z Hd Hidx) as [d' [E [I G]]].
@@ -497,7 +518,7 @@ Proof.
 Qed.
 
 Lemma column_set_spec c idx v :
-  CInv c -> idx < usize_max ->
+  CInv c -> idx <= usize_max ->
   exists c', column_set c idx v = Some c' /\ CInv c' /\
              forall j, column_lookup c' j = if j =? idx then Some v else column_lookup c j.
 Proof.
@@ -544,7 +565,7 @@ Proof. destruct v; cbn; repeat split; try constructor; auto. Qed.
 (* ---------- ColumnStore ---------- *)
 Definition SInv (s : store) : Prop := Forall CInv (map snd s) /\ NoDup (map fst s).
 
-Lemma store_set_spec r k v : r < usize_max -> forall s, SInv s ->
+Lemma store_set_spec r k v : r <= usize_max -> forall s, SInv s ->
   exists s' c', store_set s r k v = Some s' /\ SInv s' /\
     find_col s' k = Some c' /\
     (forall j, column_lookup c' j = if j =? r then Some v
@@ -629,7 +650,7 @@ Proof.
 Qed.
 
 (* ---------- refinement ---------- *)
-Definition row_ok (o : op) : Prop := match o with SetP r _ _ => r < usize_max | _ => True end.
+Definition row_ok (o : op) : Prop := match o with SetP r _ _ => r <= usize_max | _ => True end.
 
 Lemma step_refines s o :
   SInv s -> row_ok o ->
@@ -654,11 +675,11 @@ Lemma spec_fold_ext ops : forall m1 m2, (forall r k, m1 r k = m2 r k) ->
   forall r k, fold_left spec_step ops m1 r k = fold_left spec_step ops m2 r k.
 Proof. induction ops as [|o t IH]; cbn; intros m1 m2 H; [exact H|]. apply IH, spec_step_ext, H. Qed.
 
-Lemma known_false_rows ops : Known_C30 ops = false -> Forall row_ok ops.
+Lemma rows_ok_rows ops : rows_ok ops = true -> Forall row_ok ops.
 Proof.
-  induction ops as [|o t IH]; cbn; intros H; [constructor|].
-  apply orb_false_iff in H. destruct H as [H1 H2]. constructor; [|exact (IH H2)].
-  destruct o; cbn; auto. lia.
+  unfold rows_ok. induction ops as [|o t IH]; cbn; intros H; [constructor|].
+  apply andb_true_iff in H. destruct H as [H1 H2]. constructor; [|exact (IH H2)].
+  destruct o; cbn in *; auto. lia.
 Qed.
 
 Lemma run_from_refines ops : forall s, SInv s -> Forall row_ok ops ->
@@ -677,10 +698,10 @@ Lemma sinv_empty : SInv [].
 Proof. split; constructor. Qed.
 
 Lemma all_histories ops :
-  Known_C30 ops = false ->
+  rows_ok ops = true ->
   exists s, run ops = Some s /\ SInv s /\ forall r k, abs s r k = spec_run ops r k.
 Proof.
-  intros H. destruct (run_from_refines ops [] sinv_empty (known_false_rows ops H)) as [s [E [I G]]].
+  intros H. destruct (run_from_refines ops [] sinv_empty (rows_ok_rows ops H)) as [s [E [I G]]].
   exists s. split; [exact E|]. split; [exact I|]. exact G.
 Qed.
 
@@ -718,8 +739,26 @@ Proof.
       cbn. unfold column_has. destruct (column_lookup c r); [reflexivity | tauto].
 Qed.
 
-(* ---------- the recorded panic class is real ---------- *)
-Lemma refuted_witness :
-  let ops := expand (Fill 0 0 1024 1 0) ++ [SetP usize_max 0 (PInt 0)] in
-  Known_C30 ops = true /\ run ops = None.
-Proof. vm_compute. split; reflexivity. Qed.
+(* ---------- the arithmetic before the repair overflowed on reachable states ---------- *)
+Definition st_of (ops : list op) : store := match run ops with Some s => s | None => [] end.
+Definition int_shape (s : store) (k : N) : option (N * N) :=
+  match find_col s k with Some (CInt (Dense b v _ _)) => Some (b, nlen v) | _ => None end.
+
+Lemma original_code_refuted :
+  (* rows 0..1023 dense with base 0; a set at usize::MAX computed idx - base + 1 *)
+  int_shape (st_of (expand (Fill 0 0 1024 1 0))) 0 = Some (0, 1024) /\
+  orig_grow_span usize_max 0 = None /\
+  (* rows MAX-1023..MAX dense; a set below the base computed base + values.len() *)
+  int_shape (st_of (expand (Fill 0 (usize_max - 1023) 1024 1 0))) 0 = Some (usize_max - 1023, 1024) /\
+  orig_rebase_span (usize_max - 1023) 1024 (usize_max - 1024) = None /\
+  (* rows 0 and usize::MAX among 1024 entries: max - min + 1 *)
+  orig_promote_span usize_max 0 = None /\
+  (* the repaired code runs all three histories and reads the rows back *)
+  (let ops := expand (Fill 0 0 1024 1 0) ++ [SetP usize_max 0 (PInt 1)] in
+   rows_ok ops = true /\ get_property (st_of ops) usize_max 0 = PInt 1 /\ get_property (st_of ops) 7 0 = PInt 7) /\
+  (let ops := expand (Fill 0 (usize_max - 1023) 1024 1 0) ++ [SetP (usize_max - 1024) 0 (PInt 1)] in
+   rows_ok ops = true /\ get_property (st_of ops) (usize_max - 1024) 0 = PInt 1 /\
+   get_property (st_of ops) usize_max 0 = PInt (-1)) /\
+  (let ops := expand (Fill 0 0 1023 1 0) ++ [SetP usize_max 0 (PInt 1)] in
+   rows_ok ops = true /\ get_property (st_of ops) usize_max 0 = PInt 1 /\ get_property (st_of ops) 0 0 = PInt 0).
+Proof. vm_compute. repeat split; reflexivity. Qed.
